@@ -108,6 +108,33 @@ CLAIMED["C25"] = dict(engine="cluster", design="§6 C25",
 
 PLANNED = {}
 
+
+FILERNOTE = "Trusted: one real Filer + FilerServer handler methods inside the bubble on real leveldb/leveldb2/leveldb3 files; requests are built by the harness the way the mount builds them; a pass-through FilerStore wrapper (existing interface seam) injects failures of mutating store calls only; no transactions are assumed. Remote stores (mysql, redis, cassandra ...) are not run."
+CLAIMED["C18"] = dict(engine="filersim", design="§6 C18; Part II §A",
+   technique=TECH + "operation histories with clean restarts and injected failures of the n-th mutating store call on a real Filer over real embedded stores, compared with a reference tree after every step",
+   text="Creates (with implicit parents, o_excl), updates, recursive and non-recursive deletes, renames (onto existing entries, into new parents, into the own subtree) and restarts over a small path universe; after EVERY step the whole namespace (recursive listing plus lookup of every path ever written) must equal the reference tree and satisfy the structural invariant (parents exist and are directories, no file<->directory replacement, non-recursive delete of a non-empty directory refused unchanged, recursive delete removes the subtree, rename moves it without loss or duplication, rename into the own subtree refused). An operation reported failed after an injected store failure may stop half-way (no transactions) but must keep the invariant.",
+   note=FILERNOTE)
+CLAIMED["C19"] = dict(engine="filersim", design="§6 C19; Part II §A",
+   technique=TECH + "paginated enumerations interleaved with fake-clock TTL expiry and restarts on a real Filer, on leveldb/leveldb2/leveldb3 and on a store that forces the generic prefix-filter path; every page compared with the page the statement defines over the model",
+   text="Partial claim: request shapes (start, inclusive, limit, prefix / pattern / exclusion) are sampled, not enumerated. Simulation decides the time- and store-dependent part: entries expire on the fake clock between pages while still physically stored, the filer restarts between pages, and the listing runs through each embedded store's native prefixed listing or through FilerStoreWrapper's generic filter; each page must be exactly the matching live children in order, without duplicates, at most limit, not shortened by expired entries, and following the last name enumerates every match once; an enumeration that does not terminate is a violation.",
+   note=FILERNOTE + " Expiry during one page call is not reachable (no yield point inside a listing).")
+CLAIMED["C20"] = dict(engine="filersim", design="§6 C20; Part II §A, §F",
+   technique=TECH + "namespace histories with shared chunks, manifests and hard links on a real Filer; chunk deletions observed at the deletion queue and as BatchDelete gRPC requests (real client over bufconn) at a stub volume server, incl. the filer's own deletion loop on the fake clock; reference-count oracle over what is actually stored",
+   text="Component variant: no data chunks exist, file ids are opaque; what is decided is which file ids the filer hands to deletion. After every create, overwrite, update, append, hard link, rename, delete and recursive delete (with clean restarts and injected store failures) no chunk reachable from a live entry (directly, via a manifest, via a hard-link record) has been queued or named in a BatchDelete, and every chunk dropped by an operation that deletes data has been.",
+   note=FILERNOTE + " That the volume server really deletes what BatchDelete names is the cluster engine's business (C40).")
+CLAIMED["C21"] = dict(engine="filersim", design="§6 C21; Part II §A",
+   technique=TECH + "link/unlink/write/rename/overwrite/recursive-delete histories over names sharing 1-2 link identities on a real Filer with restarts and injected KV/store failures; model of link groups compared after every step",
+   text="After every step every name is read by lookup and by listing: all names of one link identity show the same attributes and chunks, the counter equals the number of live names, the shared record exists exactly while a name is left. Link and unlink are the request pairs the mount sends.",
+   note=FILERNOTE + " The link counter is maintained by the client (as in the mount); after a FAILED faulted two-request sequence the counter may be off by the half-done step (recorded as a probe).")
+CLAIMED["C24"] = dict(engine="filersim", design="§6 C24; Part II §A",
+   technique=TECH + "entries with drawn attributes, 0-70 chunks, extended attributes, inline content and hard-link fields written to real leveldb/leveldb2/leveldb3 stores and read back by lookup and listing across clean restarts",
+   text="Partial claim: codec equality over entry shapes is input generation and only sampled. Simulation adds the durable-store part: what was acknowledged is read back equal, field by field (chunk file ids in canonical form), by lookup and by listing, immediately and after a restart of the store, including entries over the compression threshold and gzip-looking content.",
+   note=FILERNOTE + " Remote-storage info and mime application/octet-stream (deliberately normalised) are not generated.")
+CLAIMED["C36"] = dict(engine="filersim", design="§6 C36; Part II §A",
+   technique=TECH + "the real filer's change stream consumed by the real Replicator and by the real filer.sync / filer.backup event function (through the real SubscribeLocalMetadata handler) into recording sinks and the real local sink, with drawn catch-up points and redelivery; projection oracle",
+   text="Creates, updates, deletes and renames inside, into, out of and outside the watched directory (incl. siblings whose names extend it), half of the runs with changes carrying the target cluster's signature; subscribers catch up at drawn points and get the last 1-6 events redelivered (resume from an earlier offset). After every catch-up each sink holds exactly the projection of the source's watched subtree under the target directory: nothing outside it, nothing missing, nothing from the target's own changes re-applied.",
+   note=FILERNOTE + " One filer only: a change 'from the target cluster' is a request carrying its signature; incremental (dated) sinks and restarts of the source filer are not exercised.")
+
 NA = {
  "C08": "pure codec: encode/decode of super blocks, replica placements, TTLs, file ids and index entries are functions of their argument; no schedule, clock, fault or I/O for a simulator to own",
  "C15": "volume.balance / evacuate / fix.replication in dry-run mode are pure functions from a topology snapshot to a plan; nothing in the statement depends on a schedule, clock or fault",
